@@ -34,10 +34,11 @@ def rule_grp(A: Analysis, rep):
     rep.check(v is not None and "run_experiment_group.py" in norm(v[0]), "GRP3", "stdlib file registered", std.tree, "", "run_experiment_group.py is not in STDLIB_FILES", deep=False)
     cs = A.fn("parsing.task_loader.TaskLoader._compile_scope")
     gc = A.cfg(cs, "plain")
-    binds = [n for n in gc.nodes if n.kind == "stmt" and "self._wrap_task_function(" in norm(n.ast)]
+    from .conddefs import scope_bindings
+    binds = [b for b in scope_bindings(A, cs) if "raw_task_types" in b[4] and "self._wrap_task_function(" in b[3]]
     execs = [n for n in gc.nodes if n.kind == "stmt" and norm(n.ast).startswith("exec(")]
-    rep.check(bool(binds) and bool(execs) and all(gc.all_paths_pass(gc.entry, e, [n for n in gc.nodes if n.kind == "for" and "raw_task_types" in norm(n.ast.iter)], skip_labels=None) for e in execs) and
-              all(norm(e.ast) == "exec(code, scope)" for e in execs), "GRP3", "stdlib evaluated after the task constructors are bound, in the same scope", cs.node, "",
+    rep.check(bool(binds) and bool(execs) and all(gc.all_paths_pass(gc.entry, e, [b[0] for b in binds], skip_labels=None) for e in execs) and
+              all(norm(e.ast) == "exec(code, %s)" % binds[0][5] for e in execs), "GRP3", "stdlib evaluated after the task constructors are bound, in the same scope", cs.node, "",
               "the stdlib file is not exec'd into the scope after run_experiment/combine were bound")
     # GRP5: the iterable is consumed exactly once
     uses = [n for n in walk_local(fi.node) if isinstance(n, ast.Name) and n.id == exps and isinstance(n.ctx, ast.Load)]
@@ -79,13 +80,37 @@ def rule_grp(A: Analysis, rep):
         keep = lambda a: not ("isinstance(" in a or a.startswith("in("))
         rv = A.rvalues(fi, dv, _stmt_of(call), g, start=be, keep=keep, depth=2)
         # identify the 'previous experiment' variable: the one whose None-test guards the chained form
+        # two spellings of "the previous instance": a variable that is None before the first instance, or the last element
+        # of a list that is empty before the first instance
         prev = None
+        prev_list = None
         for c, v in rv:
             for a, p in c:
                 if a.startswith("none(") and not p:
                     prev = a[5:-1]
+                elif a.startswith("empty(") and not p and ("%s[-1]" % a[6:-1]) in v:
+                    prev_list = a[6:-1]
         td = sorted({v for c, v in rv if not (v.startswith("[*") or " + [" in v)})
-        if prev and len(td) == 1:
+        if prev_list and not prev and len(td) == 1:
+            tdn = td[0]
+            pe = "%s[-1]" % prev_list
+            chained = {"[*%s, %s]" % (tdn, pe), "%s + [%s]" % (tdn, pe)}
+            want_chain = frozenset({("empty(%s)" % prev_list, False), ("t(%s)" % chain, True)})
+            from ..analysis import _simplify
+            plain_g = _simplify([c for c, v in rv if v == tdn])
+            ok = any((want_chain, ch) in set(rv) for ch in chained) and len({v for _c, v in rv}) == 2 and \
+                sorted(map(sorted, plain_g)) == sorted(map(sorted, [frozenset({("t(%s)" % chain, False)}), frozenset({("empty(%s)" % prev_list, True)})]))
+            tv = A.rvalues(fi, ast.Name(id=tdn, ctx=ast.Load()), _stmt_of(call), g, keep=lambda a: a == "none(%s)" % deps, depth=1) if tdn.isidentifier() else []
+            ok = ok and set(tv) == {(frozenset({("none(%s)" % deps, False)}), deps), (frozenset({("none(%s)" % deps, True)}), "[]")}
+            in_lp = {id(x) for x in ast.walk(lp)}
+            muts = [n for n in g.nodes if n.kind == "stmt" and n.ast is not None and id(n.ast) in in_lp and
+                    any(isinstance(x, ast.Call) and isinstance(x.func, ast.Attribute) and norm(x.func.value) == prev_list for x in ast.walk(n.ast))]
+            okp = len(muts) == 1 and isinstance(muts[0].ast, ast.Expr) and muts[0].ast.value.func.attr == "append" and \
+                A.xtext(muts[0].ast.value.args[0], fi) == "':' + %s.name" % e and g.all_paths_pass(cn, hdr, muts, skip_labels=is_exc)
+            init_l = A.single_def_value(fi, prev_list)
+            okp = okp and init_l is not None and norm(init_l) == "[]"
+            ok = ok and okp
+        elif prev and len(td) == 1:
             tdn = td[0]
             chained = {"[*%s, %s]" % (tdn, prev), "%s + [%s]" % (tdn, prev)}
             want_chain = frozenset({("none(%s)" % prev, False), ("t(%s)" % chain, True)})
